@@ -541,7 +541,10 @@ def check_dominates(ctx):
     g = cfg_of(f)
     chk = [n for n in nodes_of_type(f, ast.If) if any(call_name(c) == "self._check_previous_func_code" for c in calls_in(n.test))]
     ci = [c for c in calls_in(f) if call_name(c) == "self.store_backend.contains_item"]
-    ctx.need(ci, "_is_in_cache_and_valid no longer tests contains_item")
+    if not ci:
+        ctx.bad(f, "_is_in_cache_and_valid no longer decides presence through contains_item (output.pkl under its final name): a hit is answered for entries without a result, or a "
+                "completed entry is treated as missing", key=MEM + "::MemorizedFunc._is_in_cache_and_valid::contains_item")
+        return
     if not chk:
         ctx.bad(f, "_is_in_cache_and_valid does not check the function's source code: values computed by older code are served", key=MEM + "::MemorizedFunc._is_in_cache_and_valid::code check")
         return
@@ -924,13 +927,26 @@ def inventory(ctx):
 def key_flow(ctx):
     f = M(ctx, "MemorizedFunc._get_args_id")
     rets = nodes_of_type(f, ast.Return)
-    ctx.need(len(rets) == 1 and isinstance(rets[0].value, ast.Call), "_get_args_id shape not recognised")
-    h = rets[0].value
-    ctx.check(call_name(h) == "hashing.hash", h, "the key is hashing.hash(...)")
-    fa = h.args[0] if h.args else None
-    ok = isinstance(fa, ast.Call) and call_name(fa) == "filter_args" and [dotted(a) for a in fa.args] == ["self.func", "self.ignore", "args", "kwargs"]
-    ctx.check(ok, h, "digest input = filter_args(self.func, self.ignore, args, kwargs): all positional and keyword arguments reach the digest",
-              "digest input is %s: some arguments do not reach the cache key" % (unparse(fa) if fa is not None else None))
+    ctx.need(rets, "_get_args_id has no return")
+    n_ok = 0
+    for r in rets:
+        vals = [r.value]
+        if isinstance(r.value, ast.Name):
+            vals = [d.value for d in _local_def(f, r.value.id)] or [r.value]
+        for h in vals:
+            if not (isinstance(h, ast.Call) and call_name(h) == "hashing.hash"):
+                ctx.bad(r, "_get_args_id returns %s, which is not the digest of this call's canonical arguments (values that compare equal - 1, 1.0, True - or a stale "
+                        "entry would share a cache key)" % unparse(h))
+                continue
+            fa = h.args[0] if h.args else None
+            if isinstance(fa, ast.Name):
+                d = _local_def(f, fa.id)
+                fa = d[0].value if len(d) == 1 else fa
+            ok = isinstance(fa, ast.Call) and call_name(fa) == "filter_args" and [dotted(a) for a in fa.args] == ["self.func", "self.ignore", "args", "kwargs"]
+            n_ok += bool(ok)
+            ctx.check(ok, h, "the key is hashing.hash(filter_args(self.func, self.ignore, args, kwargs)): all positional and keyword arguments reach the digest",
+                      "digest input is %s: some arguments do not reach the cache key" % (unparse(fa) if fa is not None else None))
+    ctx.need(n_ok or ctx.violations(), "_get_args_id shape not recognised")
     ctx.check(f.args.vararg is not None and f.args.vararg.arg == "args" and f.args.kwarg is not None and f.args.kwarg.arg == "kwargs", f, "_get_args_id receives *args and **kwargs")
     bi = ctx.repo.func(MEM, "_build_func_identifier")
     r = nodes_of_type(bi, ast.Return)
